@@ -221,7 +221,11 @@ def compare(I, op, a, b):
     if not isinstance(b, OptVal):
         b = _val(b)
     if ty in (ast.Is, ast.IsNot):
-        if a is None or b is None:
+        if (a is None) != (b is None) and isinstance(
+                b if a is None else a,
+                (SymSeq, SymStruct, SymRow, Obj, Cell, FuncVal)):
+            r = False                  # a definite object is not None
+        elif a is None or b is None:
             r = veq(a, b)
         elif isinstance(a, bool) or isinstance(b, bool):
             r = veq(a, b)
@@ -541,7 +545,11 @@ def seq_take(I, s, idx):
 
 def struct_take(I, s, idx):
     if idx.elem == "Bool":
-        raise Unsupported("boolean mask on structured array")
+        # one selection map per mask (shared with every other array the same
+        # mask is applied to), field by field
+        cols = {f: mask_select(I, q, idx) for f, q in s.fields.items()}
+        any_col = next(iter(cols.values()))
+        return SymStruct(any_col.length, cols)
     I.oblige(f"fancy_index_in_range@{I.cur_line}",
              forall_idx(I, idx.length, lambda k: z3.And(
                  -to_int(s.length) <= idx.get(k),
@@ -1099,6 +1107,11 @@ def getattr(I, base, attr):
     m = METHODS.get((_kind(base), attr))
     if m is not None:
         return m(I, base)
+    # a record standing for an object whose attributes are its fields
+    rv = base.read() if isinstance(base, Cell) and base.kind == "row" \
+        else base
+    if isinstance(rv, SymRow) and attr in rv.fields:
+        return rv.fields[attr]
     if base is None:
         I.fail(f"None_has_no_{attr}@{I.cur_line}")
     raise Unsupported(f"attribute .{attr} of {base!r} (line {I.cur_line})")
@@ -1726,7 +1739,13 @@ def _isfinite(I, x):
 
 @lib("numpy.isposinf")
 def _isposinf(I, x):
-    return to_real(_val(x)) == INF
+    v = _val(x)
+    if isinstance(v, SymSeq):
+        if str(v.elem).startswith("Sort("):
+            return _abstract_flags(I, v, "isposinf_pt")
+        return Cell("arr", SymSeq(v.length,
+                                  lambda i: to_real(v.get(i)) == INF, "Bool"))
+    return to_real(v) == INF
 
 
 @lib("numpy.isneginf")
@@ -3638,3 +3657,196 @@ def as_term(I, v):
     if isinstance(v, StrVal):
         return v.term
     return to_z3(v)
+
+
+# ---- more 2-D table operations (C03: compute_log_Q / draw) ---------------
+_as_seq_prev = as_seq
+
+
+def as_seq(I, it):                       # noqa: F811
+    if isinstance(it, IDictView):
+        v = it.cell.read()
+        if it.what == "values":
+            return v
+        if it.what == "keys":
+            return SymSeq(v.length, lambda i: to_int(i) - 1, "Int")
+        raise Unsupported("iteration over dict items")
+    return _as_seq_prev(I, it)
+
+
+def _fresh_tbl(I, n, name="tbl", elem="Sort(QRow)"):
+    srt = usort(parse_type(elem)[1])
+    f = z3.Function(I.namer.fresh(name), z3.IntSort(), srt)
+    return f, SymSeq(n, lambda q: f(to_int(q)), elem)
+
+
+_np_zeros_1d = LIB["numpy.zeros"].fn
+
+
+@lib("numpy.zeros", "numpy.empty")
+def _np_zeros2(I, shape, dtype=None, **kw):
+    if isinstance(shape, (list, tuple)) and len(shape) == 2 and \
+            dtype is None and not kw:
+        n, m = shape
+        f, seq = _fresh_tbl(I, n, "zeros")
+        j = z3.Int(I.namer.fresh("q_j"))
+        i = z3.Int(I.namer.fresh("q_i"))
+        I.assume(forall_idx(I, n, lambda q: tbl_ncol(f(q)) == to_int(m)))
+        I.assume(z3.ForAll([i, j], z3.Implies(
+            z3.And(0 <= i, i < to_int(n), 0 <= j, j < to_int(m)),
+            tbl_col(f(i), j) == 0), patterns=[tbl_col(f(i), j)]))
+        return Cell("arr", seq)
+    return _np_zeros_1d(I, shape, dtype, **kw)
+
+
+def tbl_add_col(I, tbl, col):
+    """tbl + v[:, np.newaxis]: the column vector is added to every column"""
+    I.oblige(f"broadcast_rows@{I.cur_line}",
+             to_int(tbl.length) == to_int(col.length), "safety")
+    f, seq = _fresh_tbl(I, tbl.length, "tbladd", tbl.elem)
+    i = z3.Int(I.namer.fresh("q_i"))
+    j = z3.Int(I.namer.fresh("q_j"))
+    n = to_int(tbl.length)
+    I.assume(forall_idx(I, n, lambda q: tbl_ncol(f(q)) ==
+                        tbl_ncol(tbl.get(q))))
+    I.assume(z3.ForAll([i, j], z3.Implies(
+        z3.And(0 <= i, i < n, 0 <= j, j < tbl_ncol(tbl.get(i))),
+        tbl_col(f(i), j) == tbl_col(tbl.get(i), j) + to_real(col.get(i))),
+        patterns=[tbl_col(f(i), j)]))
+    return Cell("arr", seq)
+
+
+def tbl_store_cols(I, base, lo, hi, src):
+    """tbl[:, lo:hi] = src (src a table with hi - lo columns)"""
+    tbl = base.read()
+    n = to_int(tbl.length)
+    lo, hi = to_int(lo), to_int(hi)
+    I.oblige(f"assign_rows@{I.cur_line}", to_int(src.length) == n, "safety")
+    I.oblige(f"assign_cols@{I.cur_line}", forall_idx(
+        I, n, lambda q: z3.And(0 <= lo, lo <= hi,
+                               hi <= tbl_ncol(tbl.get(q)),
+                               tbl_ncol(src.get(q)) == hi - lo)), "safety")
+    f, seq = _fresh_tbl(I, tbl.length, "tblset", tbl.elem)
+    i = z3.Int(I.namer.fresh("q_i"))
+    j = z3.Int(I.namer.fresh("q_j"))
+    I.assume(forall_idx(I, n, lambda q: tbl_ncol(f(q)) ==
+                        tbl_ncol(tbl.get(q))))
+    I.assume(z3.ForAll([i, j], z3.Implies(
+        z3.And(0 <= i, i < n, 0 <= j, j < tbl_ncol(tbl.get(i))),
+        tbl_col(f(i), j) == z3.If(z3.And(lo <= j, j < hi),
+                                  tbl_col(src.get(i), j - lo),
+                                  tbl_col(tbl.get(i), j))),
+        patterns=[tbl_col(f(i), j)]))
+    base.write(seq)
+
+
+_binop_prev2 = binop
+
+
+def binop(I, op, a, b):      # noqa: F811
+    if isinstance(op, (ast.Add, ast.Sub)):
+        av = _val(a) if not isinstance(a, ColVal) else a
+        if isinstance(b, ColVal) and isinstance(av, SymSeq) and is_tbl(av):
+            col = b.seq
+            if isinstance(op, ast.Sub):
+                col = SymSeq(col.length, lambda i, c=col: -to_real(c.get(i)),
+                             "Real")
+            return tbl_add_col(I, av, col)
+    return _binop_prev2(I, op, a, b)
+
+
+_setitem_prev = setitem
+
+
+def setitem(I, base, key, value):        # noqa: F811
+    if isinstance(base, Cell) and base.kind == "arr" and \
+            isinstance(base.value, SymSeq) and is_tbl(base.value) and \
+            isinstance(key, tuple) and len(key) == 2 and _full(key[0]) and \
+            isinstance(key[1], slice) and key[1].step is None:
+        v = _val(value)
+        if not (isinstance(v, SymSeq) and is_tbl(v)):
+            raise Unsupported("column store of a non-table")
+        return tbl_store_cols(I, base, key[1].start or 0, key[1].stop, v)
+    return _setitem_prev(I, base, key, value)
+
+
+_isnan_prev = LIB["numpy.isnan"].fn
+_isfinite_prev = LIB["numpy.isfinite"].fn
+
+
+def _abstract_flags(I, x, what):
+    f = z3.Function(I.namer.fresh(what), z3.IntSort(), z3.BoolSort())
+    return Cell("arr", SymSeq(x.length, lambda i: f(to_int(i)), "Bool"))
+
+
+@lib("numpy.isnan")
+def _isnan2(I, x):
+    v = _val(x)
+    if isinstance(v, SymSeq) and str(v.elem).startswith("Sort("):
+        # element-wise test on abstract points / rows: uninterpreted
+        return _abstract_flags(I, v, "isnan_pt")
+    return _isnan_prev(I, x)
+
+
+@lib("numpy.isfinite")
+def _isfinite2(I, x):
+    v = _val(x)
+    if isinstance(v, SymSeq) and str(v.elem).startswith("Sort("):
+        return _abstract_flags(I, v, "isfinite_pt")
+    return _isfinite_prev(I, x)
+
+
+LIB["spec.isnan"] = LIB["numpy.isnan"]
+
+
+@method("seq", "any")
+def _seq_any(I, b, **kw):
+    return _any(I, b)
+
+
+@method("seq", "all")
+def _seq_all(I, b, **kw):
+    # (axis=1 on an array of abstract points: one flag per point, which is
+    # what the abstract element-wise test already produced)
+    if kw.get("axis") == 1:
+        return b
+    return _all(I, b)
+
+
+# how torch.load fails on a torn (truncated) file depends on how much of it
+# was written (measured on the installed torch: 0 bytes -> EOFError, 1-3
+# bytes -> pickle.UnpicklingError, longer prefixes -> RuntimeError).  The
+# torn state carries an uninterpreted kind; recovery code must handle all.
+TORN_KIND = z3.Function("torn_kind", z3.IntSort(), z3.IntSort())
+
+
+@lib("spec.fs_torn_kind")
+def _spec_fs_torn_kind(I, p):
+    """0: empty, 1: too short for the unpickler, 2: longer prefix"""
+    pv = p if isinstance(p, PathVal) else None
+    key = StrVal.code(f"{pv.base}|{pv.suffix}") if pv is not None else \
+        StrVal.code(str(p))
+    k = TORN_KIND(z3.IntVal(key))
+    return z3.If(k <= 0, 0, z3.If(k == 1, 1, 2))
+
+
+# ---- structured dtypes as values (np.zeros(n, dtype=self.dtype)) -----------
+class DTypeVal:
+    def __init__(self, fields):
+        self.fields = fields          # [(name, type descriptor)]
+
+
+INUNIT = z3.Function("InUnit", PS_, z3.BoolSort())
+LIB["spec.InUnit"] = E.LibFunc("spec.InUnit", lambda I, v: INUNIT(_val(v)))
+
+_np_zeros_2 = LIB["numpy.zeros"].fn
+
+
+@lib("numpy.zeros", "numpy.empty")
+def _np_zeros3(I, shape, dtype=None, **kw):
+    if isinstance(dtype, DTypeVal) and not isinstance(shape, (list, tuple)):
+        n = shape
+        return Cell("arr", SymStruct(n, {
+            f: I.fresh_seq(t, I.namer.fresh(f"zeros.{f}"), n)
+            for f, t in dtype.fields}))
+    return _np_zeros_2(I, shape, dtype, **kw)
